@@ -452,7 +452,8 @@ def treeseq_count_topologies(ts, sample_sets):
 
     for sample_set_index, sample_set in enumerate(sample_sets):
         for u in sample_set:
-            if not ts.node(u).is_sample():
+            # ts.node() accepts negative IDs as Python indexes: not valid here
+            if u < 0 or not ts.node(u).is_sample():
                 raise ValueError(f"Node {u} in sample_sets is not a sample.")
             topology_counter[u] = TopologyCounter.from_sample(sample_set_index)
 
